@@ -87,3 +87,15 @@ def build(X):
     lines.append("proof fn option_row() { assert(%d == %d); } // @HF.option.translate_query" % (len(uses), passed_on))
     lines += ["} // verus!", "fn main() {}", ""]
     return "\n".join(lines)
+
+
+# ----------------------------------------------------------------------------- replay: the executed option / header comparison of unit dialect_select (every target as option against every
+# other target as header; unknown and mixed-case names as header and as option)
+def replay(failure):
+    import dialect_select
+    return dialect_select.replay(failure)
+
+
+def rerun(doc):
+    import dialect_select
+    return dialect_select.replay({"obligation": doc.get("obligation", "")})
